@@ -1,6 +1,6 @@
 SPECIFICATION Spec
 CONSTANTS
-  FeatLo = 0 FeatHi = 3 OptSets <- OptWidthPlus LevSets <- LevSome
+  FeatLo = 0 FeatHi = 2 OptSets <- OptWidthPlus LevSets <- LevSome
   Orders = {"std", "rev", "mix", "featfirst"}
   Casings = {"mixed", "upper"}
   Encs = {"pm", "zo", "bool"}
